@@ -73,6 +73,31 @@ def run(ctx):
             ctx.check(delegates, "R18.6", mf, op + "-transfers",
                       "the user-provided %s does not hand the source to unique_ptr's own move (%s): with an exchange instead of a transfer the object the target held is not destroyed at the "
                       "assignment and the moved-from pointer is not empty" % (op.replace("_", " "), [fmt(e["expr"]) for _, _, e in mf.roots()]), mf)
+    # ---- R18.7: a copy of an optional is made by the copy/move constructor, whatever the payload type (overload resolution witness)
+    ctx.rule("R18.7", "copy-initialising an optional<T> from an optional<T> of any value category selects the copy (or move) constructor, also for payloads constructible from optional itself")
+    wf = [f for f in prog.find("vwit::optional_copies") if f.has_cfg]
+    if ctx.anchor("R18.7", "vwit::optional_copies", bool(wf)):
+        nsel = 0
+        for bid, i, e in wf[0].roots():
+            x = e["expr"]
+            if x.get("k") != "decl":
+                continue
+            for v in x.get("vars", []):
+                init = ir.unwrap(v.get("init"))
+                while isinstance(init, dict) and init.get("k") == "cast":
+                    init = ir.unwrap(init["e"])
+                if not (isinstance(init, dict) and init.get("k") == "construct"):
+                    continue
+                args = [a for a in init.get("args", []) if not (isinstance(a, dict) and a.get("k") == "defarg")]
+                if len(args) != 1 or "optional" not in (ir.unwrap(args[0]).get("type") or fmt(args[0])) and v["name"] != "from_rvalue":
+                    pass
+                nsel += 1
+                chosen = prog.fn(init.get("ctor")) if init.get("ctor") else None
+                is_copy = bool(init.get("copy") or init.get("move") or (chosen is not None and (chosen.flags.get("copy_ctor") or chosen.flags.get("move_ctor"))))
+                ctx.check(is_copy, "R18.7", wf[0], "copy-selects-copy-ctor:" + v["name"],
+                          "`optional<bool> %s(...)` from an optional<bool> is built by %s, not by the copy/move constructor: the new object holds a value computed FROM the source object (its engaged-ness) "
+                          "instead of a copy of its value; a copy of an empty optional is engaged" % (v["name"], init.get("ctor")), (wf[0], e.get("ln")), why_ok=str(init.get("ctor"))[:90])
+        ctx.need("R18.7", "copy-initialisations in the witness", nsel, 3)
     # ---- R18.2
     mq = [f for f in prog.find("nitro::lang::make_quaint") if f.has_cfg]
     ctx.need("R18.2", "make_quaint bodies (pattern + instantiation)", len(mq), 2)
